@@ -258,3 +258,20 @@ def overbook_parallel_roots_fail_scenario(seed):
     for k in range(1, len(pipes)):
         arrivals[rng.randint(0, 6)].append(k)
     return {"layer": "S", "algo": "overbook", "cfg": cfg, "pipes": pipes, "steps": [], "arrivals": arrivals}
+
+
+def unordered_arrivals_scenario(seed, algo="naive"):
+    """several pipelines arrive in ONE tick in an order that is not the order of their ids (p4, p0, p3, ... as a hand-written trace may have them) while there
+    are fewer free pools than pipelines: who is served first is decided by arrival order alone"""
+    rng = random.Random(seed)
+    tps = rng.choice([1, 2, 4])
+    cfg = {"tps": tps, "multi": algo != "template" and rng.random() < 0.5, "over": False, "npools": rng.choice([1, 2]), "cpus": 4, "ram": "16"}
+    n = rng.randint(4, 6)
+    pipes = [{"prio": 3, "ops": [gen_e.simple_op(tps, rng.randint(2, 4), fixed=F(1, 64))]} for _ in range(n)]
+    order = list(range(n))
+    while order == sorted(order):
+        rng.shuffle(order)
+    nticks = 40
+    arrivals = [[] for _ in range(nticks)]
+    arrivals[0] = order
+    return {"layer": "S", "algo": algo, "cfg": cfg, "pipes": pipes, "steps": [], "arrivals": arrivals}
